@@ -21,7 +21,9 @@ var l6ints = []string{"0", "1", "18", "19", "63", "64", "100", "255", "256", "-1
 
 var l6ranges = []string{`"min..max"`, `"max"`, `"min"`, `"1..5"`, `"5..1"`, `"1..5|3..7"`, `"min..1|2..max"`, `"1.5..2.5"`, `"-1..1"`, `"1.."`, `"..1"`, `"|"`, `""`,
 	`"1|1"`, `"0..18446744073709551615"`, `"0..18446744073709551616"`, `"-9223372036854775808..9223372036854775807"`, `"-9223372036854775809..0"`,
-	`"1.0000000000000000001..2"`, `"max..min"`, `"min..min"`, `"1 .. 5"`, `"a..b"`, `"-92233720368547758.08..92233720368547758.07"`, `"0.1..0.12345678901234567890"`}
+	`"1.0000000000000000001..2"`, `"max..min"`, `"min..min"`, `"1 .. 5"`, `"a..b"`, `"-92233720368547758.08..92233720368547758.07"`, `"0.1..0.12345678901234567890"`,
+	// bounds written with more fraction digits than the type has, the surplus all zeros; with as many; with one digit
+	`"2.50..3.00"`, `"2.5..3.0"`, `"0.100..0.5"`, `"1.50"`, `"2.500..2.5"`, `"1.00..max"`}
 
 func l6stmts() []string {
 	var out []string
